@@ -2,7 +2,9 @@ package mon
 
 import (
 	"context"
+	"encoding/json"
 	"fmt"
+	"math"
 	"math/big"
 	"math/rand"
 	"os"
@@ -362,7 +364,7 @@ func (f *fuzzEnv) fillValue(fv reflect.Value, name string, depth int) {
 	case ft.Kind() == reflect.Bool:
 		fv.SetBool(f.r.Intn(2) == 0)
 	case ft.Kind() == reflect.Int64 || ft.Kind() == reflect.Int32:
-		vs := []int64{0, -1, 1, 1 << 62, -1 << 62, gen.Epoch.Unix(), gen.Epoch.Unix() + 1000}
+		vs := []int64{0, -1, 1, 1 << 62, -1 << 62, gen.Epoch.Unix(), gen.Epoch.Unix() + 1000, math.MinInt64, math.MaxInt64, math.MinInt64 + gen.Epoch.Unix()}
 		x := vs[f.r.Intn(len(vs))]
 		f.class(fmt.Sprintf("i64:%d", x))
 		fv.SetInt(x)
@@ -489,6 +491,14 @@ func runC20(c *fw.Case) {
 			}
 		}
 	case "signature-data":
+		// stored certificates of every degenerate shape: not PEM at all, a PEM block with an
+		// empty body, with a body that is no certificate, of another type, two blocks
+		certs := []string{"x", "", "-----BEGIN CERTIFICATE-----\n-----END CERTIFICATE-----", "-----BEGIN CERTIFICATE-----\nAAAA\n-----END CERTIFICATE-----",
+			"-----BEGIN EC PARAMETERS-----\nBggqhkjOPQMBBw==\n-----END EC PARAMETERS-----", "-----BEGIN CERTIFICATE-----\n-----END CERTIFICATE-----\n-----BEGIN CERTIFICATE-----\nAAAA\n-----END CERTIFICATE-----"}
+		sigJSON := func() string {
+			bz, _ := json.Marshal(map[string]string{"signature": []string{"AA==", "", "MEUCIQ=="}[c.R.Intn(3)], "algorithm": []string{"ecdsaWithSha256", "sha256WithRsaEncryption", "x"}[c.R.Intn(3)], "certificate": certs[c.R.Intn(len(certs))]})
+			return string(bz)
+		}
 		// links published for the reference ids the fuzzer uses, signatures stored for some
 		// (address, reference id) pairs only: every combination of present / absent objects
 		for _, refID := range []string{strings.Repeat("a", 64), strings.Repeat("Z", 64)} {
@@ -496,16 +506,16 @@ func runC20(c *fw.Case) {
 				execSigOn(e.n, &sigtypes.MsgPublishReferencePayloadLink{Creator: e.owners[0].Bech(), Key: lk.ReferenceKey, Value: lk.ReferenceValue})
 			}
 			if sk, err := e.n.App.CfesignatureKeeper.CreateStorageKey(sdk.WrapSDKContext(e.n.Ctx()), &sigtypes.QueryCreateStorageKeyRequest{TargetAccAddress: f.addrs[0], ReferenceId: refID}); err == nil {
-				execSigOn(e.n, &sigtypes.MsgStoreSignature{Creator: e.owners[0].Bech(), StorageKey: sk.StorageKey, SignatureJSON: `{"signature":"AA==","algorithm":"ecdsaWithSha256","certificate":"x"}`})
+				execSigOn(e.n, &sigtypes.MsgStoreSignature{Creator: e.owners[0].Bech(), StorageKey: sk.StorageKey, SignatureJSON: sigJSON()})
 			}
 		}
 		if sk, err := e.n.App.CfesignatureKeeper.CreateStorageKey(sdk.WrapSDKContext(e.n.Ctx()), &sigtypes.QueryCreateStorageKeyRequest{TargetAccAddress: f.addrs[1], ReferenceId: strings.Repeat("b", 64)}); err == nil {
 			// signature without a published link
-			execSigOn(e.n, &sigtypes.MsgStoreSignature{Creator: e.owners[0].Bech(), StorageKey: sk.StorageKey, SignatureJSON: `{"signature":"AA==","algorithm":"ecdsaWithSha256","certificate":"x"}`})
+			execSigOn(e.n, &sigtypes.MsgStoreSignature{Creator: e.owners[0].Bech(), StorageKey: sk.StorageKey, SignatureJSON: sigJSON()})
 		}
 		for i := 0; i < 3; i++ {
 			execSigOn(e.n, &sigtypes.MsgPublishReferencePayloadLink{Creator: e.owners[0].Bech(), Key: fmt.Sprintf("k%d", i), Value: "v"})
-			execSigOn(e.n, &sigtypes.MsgStoreSignature{Creator: e.owners[0].Bech(), StorageKey: fmt.Sprintf("s%d", i), SignatureJSON: `{"signature":"AA==","algorithm":"ecdsaWithSha256","certificate":"x"}`})
+			execSigOn(e.n, &sigtypes.MsgStoreSignature{Creator: e.owners[0].Bech(), StorageKey: fmt.Sprintf("s%d", i), SignatureJSON: sigJSON()})
 		}
 	}
 	msgs := c20Messages()
@@ -608,6 +618,12 @@ func c20RunMsg(c *fw.Case, e *vestEnv, msg sdk.Msg, name string, f *fuzzEnv) (re
 			_, herr = handler(cctx, msg)
 			if herr == nil && f.r.Intn(3) == 0 && c20SafeToKeep(msg) {
 				write() // keep the effect: later messages and queries run against the new state
+				if m, ok := msg.(*vesttypes.MsgCreateVestingAccount); ok {
+					// the new vesting account becomes a sender of later splits and moves
+					if k, known := e.keys[m.ToAddress]; known {
+						e.cvaKeys = append(e.cvaKeys, k)
+					}
+				}
 			}
 		}); p != nil {
 			c.ViolateD("C20/handler-panic/"+name+"/"+panicKey(p.Stack), detail(p), "%s passed ValidateBasic, its handler panicked: %s", name, short(p.Value, 200))
